@@ -82,8 +82,9 @@ func (hs *SimpleHotStuff) CommitRule(block *hotstuff.Block) *hotstuff.Block {
 	ggp, ok := hs.blockchain.Get(gp.QuorumCert().BlockHash())
 	// we commit the great-grandparent of the block if its grandchild is certified,
 	// which we already know is true because the new block contains the grandchild's certificate,
-	// and if the great-grandparent's view + 2 equals the grandchild's view.
-	if ok && ggp.View()+2 == p.View() {
+	// and if the three blocks have consecutive views: the great-grandparent's view + 1 equals
+	// the grandparent's view and the great-grandparent's view + 2 equals the grandchild's view.
+	if ok && ggp.View()+1 == gp.View() && ggp.View()+2 == p.View() {
 		return ggp
 	}
 	return nil
